@@ -897,22 +897,35 @@ def nontrivial(case, out):
 
 def rebuild(case, ranges=None, qs=None, tables=None, cur=None, later=None):
     return build(tables if tables is not None else case["tables"], case["commit"], later if later is not None else case["later"],
-                 cur if cur is not None else case["cur"], ranges if ranges is not None else case["ranges"], qs if qs is not None else case["qs"])
+                 cur if cur is not None else case["cur"], ranges if ranges is not None else case["ranges"], qs if qs is not None else case["qs"],
+                 case.get("commit2", False))
 
 
 def shrink_candidates(case):
-    # fewer queries / ranges first, then fewer rows (only when there is no post-commit change to keep data consistent)
-    if len(case["qs"]) + len(case["ranges"]) > 1:
-        for i in range(len(case["qs"])):
-            yield rebuild(case, qs=case["qs"][:i] + case["qs"][i + 1:])
-        for i in range(len(case["ranges"])):
-            yield rebuild(case, ranges=case["ranges"][:i] + case["ranges"][i + 1:])
+    """single items first (one query or one range alone), then whole tables emptied, halves of tables, single rows
+    (rows only when there is no post-commit change, to keep current and committed data consistent)"""
+    nq, nr = len(case["qs"]), len(case["ranges"])
+    if nq + nr > 1:
+        for i in range(nq):
+            yield rebuild(case, qs=[case["qs"][i]], ranges=[])
+        for i in range(nr):
+            yield rebuild(case, qs=[], ranges=[case["ranges"][i]])
     if not case["later"]:
+        def without(n, idx):
+            tb = copy.deepcopy(case["tables"])
+            tb[n] = [r for i_, r in enumerate(tb.get(n, [])) if i_ not in idx]
+            return rebuild(case, tables=tb, cur=copy.deepcopy(tb))
         for n in ("t", "u", "k", "w", "v"):
-            for i in range(len(case["tables"].get(n, []))):
-                tb = copy.deepcopy(case["tables"])
-                del tb[n][i]
-                yield rebuild(case, tables=tb, cur=copy.deepcopy(tb))
+            rows = case["tables"].get(n, [])
+            if len(rows) > 1:
+                yield without(n, set(range(len(rows))))
+                yield without(n, set(range(len(rows) // 2)))
+                yield without(n, set(range(len(rows) // 2, len(rows))))
+        for n in ("t", "u", "k", "w", "v"):
+            rows = case["tables"].get(n, [])
+            if 0 < len(rows) <= 8:
+                for i in range(len(rows)):
+                    yield without(n, {i})
 
 
 def neighbours(case, rng):
